@@ -52,7 +52,7 @@ CatName == "C"
 \* len: bytes; sig: isolinux hybrid signature FB C0 78 70 at 0x40; mbr: class of bytes 0..511 as
 \* an El Torito hard disk image ("ok": 55AA and exactly one partition, of type ptype)
 B(len, sig, mbr, ptype) == [len |-> len, sig |-> sig, mbr |-> mbr, ptype |-> ptype]
-BlobIds == {"s32", "s64", "h2048", "h2049", "h4096", "e6000", "m100", "x5000", "f12", "f144", "f288",
+BlobIds == {"s32", "s64", "h2048", "h2049", "h4096", "e6000", "m100", "x5000", "f12", "f144", "f288", "b34m", "b35m",
             "mbrok", "mbrnosig", "mbrnopart", "mbrtwo", "mbrshort"}
 BlobInfo == [b \in BlobIds |->
     CASE b = "s32"   -> B(32, FALSE, "short", 0)
@@ -66,6 +66,8 @@ BlobInfo == [b \in BlobIds |->
       [] b = "f12"   -> B(1228800, FALSE, "nosig", 0)
       [] b = "f144"  -> B(1474560, FALSE, "nosig", 0)
       [] b = "f288"  -> B(2949120, FALSE, "nosig", 0)
+      [] b = "b34m"  -> B(35651584, FALSE, "nosig", 0)     \* 34 MiB: more than 1024 cylinders of 63 x 1 sectors
+      [] b = "b35m"  -> B(35672064, FALSE, "nosig", 0)     \* ... with another remainder modulo the cylinder
       [] b = "mbrok"     -> B(1024, FALSE, "ok", 12)
       [] b = "mbrnosig"  -> B(1024, FALSE, "nosig", 0)
       [] b = "mbrnopart" -> B(1024, FALSE, "nopart", 0)
@@ -190,6 +192,13 @@ Par ==
                                      \* cylinder padding is needed the volume ends with that byte
                                      HybPrefix("ME", FALSE, FALSE) \o <<AF("Z", "h4096")>>},
          maxent |-> 3, maxfiles |-> 3, links |-> FALSE]
+    [] Profile = "c12b" ->     \* a big image: more than 1024 cylinders with room for the backup GPT in the padding
+        [names |-> {}, blobs |-> {}, dirs |-> {}, boot |-> {},
+         hyb |-> {HS(1, 0, 999, 63, 1, "none", "yes", FALSE), HS(1, 0, 999, 63, 1, "none", "none", FALSE),
+                  HS(1, 0, 999, 63, 1, "none", "yes", TRUE)},
+         scopes |-> {}, prefixes |-> {HybPrefix("ME", TRUE, TRUE) \o <<AF("K", "b34m")>>,
+                                     HybPrefix("ME", TRUE, TRUE) \o <<AF("K", "b35m")>>},
+         maxent |-> 3, maxfiles |-> 4, links |-> FALSE]
     [] Profile = "c12G" ->     \* thorough: the full product
         [names |-> {}, blobs |-> {}, dirs |-> {}, boot |-> {},
          hyb |-> FullGrid("bios") \cup FullGrid("efi") \cup FullGrid("mac"),
